@@ -40,6 +40,10 @@ class PlainAnn:  # replaced by a claripy.Annotation subclass on first use
     pass
 
 
+class PlainAnn2:
+    pass
+
+
 def classes(claripy):
     H.user_classes(claripy)
     g = globals()
@@ -51,6 +55,14 @@ def classes(claripy):
         PlainAnn.__module__ = __name__
         PlainAnn.__qualname__ = "PlainAnn"
         g["PlainAnn"] = PlainAnn
+
+        class PlainAnn2(claripy.Annotation):  # another class of the same kind, with the same attributes
+            def __init__(self, v):
+                self.v = v
+
+        PlainAnn2.__module__ = __name__
+        PlainAnn2.__qualname__ = "PlainAnn2"
+        g["PlainAnn2"] = PlainAnn2
     return g["PlainAnn"]
 
 
@@ -70,14 +82,14 @@ def install_identity_hash_seam(claripy, salt):
 
     from .rng import mix64
 
-    PA = classes(claripy)
+    PA = (classes(claripy), globals()["PlainAnn2"])
     st = _IDH
     if st["map"] is None:
         st["map"] = weakref.WeakKeyDictionary()
         st["salt"] = salt
 
     def sim_hash(o):
-        if type(o) is PA:
+        if type(o) in PA:
             s = st["map"].get(o)
             if s is None:
                 if st["queue"]:
@@ -96,17 +108,21 @@ def install_identity_hash_seam(claripy, salt):
     claripy.ast.base.hash = sim_hash
 
 
-def flip_plain(sp):
+def flip_plain(sp, how="value"):
+    """the decoy of an address-reuse injection: same expression, identity-hashed annotations with other contents
+    (how == "value") or of another class with the same contents (how == "class")"""
     if isinstance(sp, list):
         if sp and sp[0] == "plain_ann":
-            return ["plain_ann", 3 - sp[1] if sp[1] in (1, 2) else 1, flip_plain(sp[2])]
-        return [flip_plain(x) for x in sp]
+            if how == "class":
+                return ["plain_ann2", sp[1], flip_plain(sp[2], how)]
+            return ["plain_ann", 3 - sp[1] if sp[1] in (1, 2) else 1, flip_plain(sp[2], how)]
+        return [flip_plain(x, how) for x in sp]
     return sp
 
 
 def has_plain(sp):
     if isinstance(sp, list):
-        if sp and sp[0] == "plain_ann":
+        if sp and sp[0] in ("plain_ann", "plain_ann2"):
             return True
         return any(has_plain(x) for x in sp)
     return False
@@ -124,6 +140,9 @@ def build(sp, claripy):
     op = sp[0]
     if op == "plain_ann":
         return build(sp[2], claripy).annotate(classes(claripy)(sp[1]))
+    if op == "plain_ann2":
+        classes(claripy)
+        return build(sp[2], claripy).annotate(globals()["PlainAnn2"](sp[1]))
     if op in EXTRA_SORT:
         B = lambda x: build(x, claripy)  # noqa: E731
         if op == "sext":
@@ -172,7 +191,7 @@ def build(sp, claripy):
 def sort_of(sp):
     if sp[0] in EXTRA_SORT:
         return EXTRA_SORT[sp[0]]
-    return sort_of(sp[2]) if sp[0] == "plain_ann" else H.sort_of(sp)
+    return sort_of(sp[2]) if sp[0] in ("plain_ann", "plain_ann2") else H.sort_of(sp)
 
 
 def deep(a, claripy, memo):
@@ -293,7 +312,7 @@ def generate(prop, seed, idx, opts):
     ops.append({"op": "ship"})
     cfg = {"child_hashseed": r.choice([0, 1, 2, 3, 99, 31337, 4242]), "proto": r.choice([2, 4, 5]), "pin": r.below(len(PINS)),
            "prelive_first": r.chance(50), "mode": "same" if r.chance(50) else "fresh"}
-    cfg["reuse_identity"] = cfg["mode"] == "same" and r.chance(60)
+    cfg["reuse_identity"] = (r.choice(["value", "value", "class"]) if r.chance(60) else False) if cfg["mode"] == "same" else False
     return {"property": prop, "engine": "history", "kind": "exprfresh", "origin_seed": seed, "run_index": idx,
             "profile": "C18expr", "config": cfg, "ops": ops}
 
@@ -352,7 +371,7 @@ def execute(rec):
                         if it["serials"] and has_plain(it["spec"]):
                             _IDH["queue"] = list(it["serials"])
                             try:
-                                decoys.append(build(flip_plain(it["spec"]), claripy))
+                                decoys.append(build(flip_plain(it["spec"], cfg["reuse_identity"] if isinstance(cfg["reuse_identity"], str) else "value"), claripy))
                             except claripy.errors.ClaripyError:
                                 pass
                             finally:
